@@ -839,6 +839,31 @@ func init() {
 		"errors.As": func(fr *frame, a []value) value {
 			return fr.i.errorsAs(fr, a[0].(iface), a[1].(iface))
 		},
+		// maps.clone is implemented in the runtime (linkname): a shallow copy
+		"maps.clone": func(fr *frame, a []value) value {
+			it, ok := a[0].(iface)
+			if !ok {
+				return a[0]
+			}
+			m, _ := it.v.(*omap)
+			if m == nil {
+				return it
+			}
+			c := &omap{keyType: m.keyType, idx: make(map[any]int)}
+			for _, e := range m.entries {
+				if !e.deleted {
+					v := e.val
+					switch x := v.(type) {
+					case structure:
+						v = append(structure(nil), x...)
+					case array:
+						v = append(array(nil), x...)
+					}
+					c.insert(e.key, v)
+				}
+			}
+			return iface{t: it.t, v: c}
+		},
 		"fmt.Errorf": func(fr *frame, a []value) value {
 			return fr.i.fmtErrorf(fr, a[0].(string), a[1].([]value))
 		},
